@@ -164,12 +164,29 @@ func mkEntry(rng *hx.Rng, s *tblsSetup, kind string, base []sigEnt) (sigEnt, boo
 		return sigEnt{"bigidx", withIndex(j, g1Bytes(d)), j, d}, true
 	case "identity":
 		return sigEnt{"identity", withIndex(i, make([]byte, 64)), i, big.NewInt(0)}, true
+	case "groupsig-far":
+		// the group signature itself (public once a request was answered) under an index whose 16 bits
+		// read as a negative number, or far out of range
+		j := []int{0xFFFF, 0xFFFE, 0x8000, 0x8001, 0x7FFF}[rng.Intn(5)]
+		if j < s.n {
+			return sigEnt{}, false
+		}
+		d := new(big.Int).Mod(new(big.Int).Mul(s.coeffs[0], s.hm), BnQ)
+		return sigEnt{"groupsig-far", withIndex(j, g1Bytes(d)), j, d}, true
+	case "faridx":
+		// the true share of a far index (a member that does not exist)
+		j := []int{255, 256, 0x7FFF, 0x8000, 0xFFFF}[rng.Intn(5)]
+		if j < s.n {
+			return sigEnt{}, false
+		}
+		d := s.shareLog(j, s.coeffs, s.hm)
+		return sigEnt{"faridx", withIndex(j, g1Bytes(d)), j, d}, true
 	}
 	return sigEnt{}, false
 }
 
 var junkKinds = []string{"dupexact", "trail", "unred", "short", "trunc", "offcurve", "bitflip", "relabel",
-	"othermsg", "otherpoly", "bigidx", "identity"}
+	"othermsg", "otherpoly", "bigidx", "identity", "groupsig-far", "faridx"}
 
 func tblsCase(rng *hx.Rng, w *hx.Writer, s *tblsSetup, ents []sigEnt, mode string) {
 	// decode table, cross-checked against the real decoder
